@@ -1,6 +1,6 @@
 (* C06/Props.v — property-level theorems only. Tags [FULL]/[PARTIAL]/[REFUTED] are read by bin/check. *)
 From Coq Require Import List NArith ZArith.
-From BLB Require Import Lib.CRC C06.Model C06.Spec C06.Proofs C06.ProofsRefuted C06.ProofsRecover C06.ProofsCrash C06.ProofsCache.
+From BLB Require Import Lib.CRC Lib.CRCProofs C06.Model C06.Spec C06.Proofs C06.ProofsRefuted C06.ProofsRecover C06.ProofsCrash C06.ProofsCache C06.ProofsTrim C06.ProofsBurst.
 Import ListNotations.
 Open Scope N_scope.
 
@@ -72,18 +72,34 @@ Proof.
 Qed.
 Print Assumptions wal_recovery_exact.
 
-(* [PARTIAL] crash atomicity of the repaired code for every scenario made of Append batches and Close/Open, every
-   roll threshold above 0, every crash point between two file-system mutations and every cut of the write in
-   flight: OpenFSLog succeeds and yields a gap-free run containing every acknowledged record with its bytes,
-   followed by at most a prefix of the batch in flight, FirstID and LastID agree with iteration and only the
-   next id can be appended. Partial because the scenario alphabet leaves out Truncate and Trim, see
-   wal_crash_atomic below or not_yet_proved *)
-Theorem wal_crash_atomic_append_reopen :
+(* [FULL] crash atomicity of the repaired code, the statement of DESIGN appendix C: for every roll threshold above 0,
+   every scenario of Append batches, Truncate, Trim and Close/Open starting with the creation of the log, every
+   crash point between two file-system mutations -- file creation, each write, each sync, each unlink, each
+   directory sync, truncate -- and every cut of the write in flight, OpenFSLog succeeds and yields a gap-free run
+   that contains every acknowledged and not removed record with exactly its bytes, followed by at most a prefix of
+   the batch in flight and nothing that was never appended, FirstID and LastID are the ends of what iteration
+   returns, and exactly the next id can be appended. Records are at most MaxRecordDataLen long and ids stay below
+   2^64 - 1. Trim being a hint, the oracle follows the first id the log reports after a Trim, which the theorem
+   bounds by the hint through must_of *)
+Theorem wal_crash_atomic :
   forall (maxsz : N) (ops : list wal_op) (i j : nat) (cut : option N),
-    0 < maxsz -> Forall valid_op ops -> Forall ar_op ops ->
+    0 < maxsz -> Forall valid_op ops ->
     crash_atomic_at repaired maxsz ops i j cut.
-Proof. exact crash_atomic_append_reopen. Qed.
-Print Assumptions wal_crash_atomic_append_reopen.
+Proof. exact crash_atomic_all. Qed.
+Print Assumptions wal_crash_atomic.
+
+(* [PARTIAL] refinement of the abstract log without crashes, repaired code: after every scenario of Appends,
+   Truncates, Trims and reopens the live log iterates exactly the oracle's records from position 0 with their
+   bytes, FirstID and LastID are the ends of that run and a single record is accepted exactly when its id is the
+   next one. Partial because iteration is characterised from position 0 only and acceptance of a whole batch is
+   taken from the implementation's result code *)
+Theorem wal_refines_spec_partial :
+  forall (maxsz : N) (ops : list wal_op),
+    0 < maxsz -> Forall valid_op ops ->
+    let lv := run_ops repaired maxsz (OReopen :: ops) in
+    exists l, lv_log lv = Some l /\ observables_ok l (lv_fs lv) (lv_acked lv).
+Proof. exact live_observables_all. Qed.
+Print Assumptions wal_refines_spec_partial.
 
 (* [FULL] cache transparency over the reference log: for every capacity of at least 1 and every sequence of
    Append batches that are accepted, Truncates and Trims starting from an empty log, iteration through walCache from
@@ -97,3 +113,18 @@ Theorem wal_cache_transparent :
     forall fx d start, c_iterate fx (Some c) (UMem m) d start = u_iterate fx (UMem m) d start.
 Proof. exact cache_transparent. Qed.
 Print Assumptions wal_cache_transparent.
+
+(* [FULL] a damaged record is never returned as data, media corruption part: if the stored bytes of a valid record
+   are altered by a single burst of at most 32 flipped bits placed anywhere in the id, the payload or the checksum
+   but not in the 4 length bytes, the reader answers ErrCorruptData. Stated limit, outside the crash quantifier of
+   C06: damage to the length field moves the position from which the checksum is read, so its detection is only
+   probabilistic *)
+Theorem wal_burst_detected :
+  forall r (idb' d' cf' rest : bytes),
+    valid_rec r ->
+    length idb' = 8%nat -> length d' = length (rdata r) -> length cf' = 4%nat -> Forall (fun x => x < 256) cf' ->
+    burst_error (bits_of ((rec_header (rid r) (blen (rdata r)) ++ rdata r) ++ le32 (rec_csum (rid r) (rdata r))))
+                (bits_of ((idb' ++ le32 (blen (rdata r)) ++ d') ++ cf')) ->
+    parse_one (idb' ++ le32 (blen (rdata r)) ++ d' ++ cf' ++ rest) = PCorrupt.
+Proof. exact burst_detected. Qed.
+Print Assumptions wal_burst_detected.
